@@ -625,3 +625,48 @@ def r9_copy_in_source_format_keeps_palette(ck, P, rid='C17-R9'):
                     ck.ok(R, where, 'palette carried over')
     if n == 0:
         raise AnalysisBroken('%s: no image created in the format of another image and then composited into found (pixman_glyph_cache_insert does)' % rid)
+
+
+def r10_tail_taken_only_from_nonempty_list(ck, P, rid='C17-R10'):
+    """T-GRD: the tail of the MRU list is a glyph only while the list is not empty - which the cache knows from its live-glyph count.
+    Every use of mru.tail as a glyph is therefore guarded, at that very iteration, by a signed comparison that proves n_glyphs > 0
+    (n_glyphs > constant >= 0).  A count computed once before the loop (n_glyphs - LOW_WATER in an unsigned) proves nothing when the
+    table was mostly tombstones: the loop then runs through the list head itself."""
+    R = ck.rule(rid, 'every load of the MRU list\'s tail in pixman-glyph.c that is turned into a glyph (pointer arithmetic on the loaded link) is guarded on every path by a signed comparison n_glyphs > c with a constant c >= 0, evaluated on the way to that load (the loop condition itself): after clear_table, or with a table that is mostly tombstones, n_glyphs is at or below the low-water mark, and a count of evictions computed in advance as an unsigned difference wraps - every live glyph is evicted and then the list head is taken for a glyph, which remove_glyph never finds', floor=1)
+    u = P.units.get('pixman-glyph.c')
+    if u is None:
+        raise AnalysisBroken('%s: pixman-glyph.c not compiled' % rid)
+    n = 0
+    for fn, f in sorted(u.functions.items()):
+        for x in f.insts():
+            if x.op != 'load' or f.last_field(f.path(x.a[0])) not in ('pixman_list.tail', 'pixman_list_t.tail'):
+                continue
+            # turned into a glyph: the loaded link is the base of a getelementptr with a negative / non-zero constant offset, or cast
+            us = f.users(x)
+            if not any(q.op in ('getelementptr', 'bitcast', 'ptrtoint') for q in us):
+                continue
+            n += 1; ck.saw(f)
+            ok = False
+            for t, s in f.guard_edges(x.bb.id):
+                if t.op != 'br' or not t.a:
+                    continue
+                c, p, ops = f.cond(t.a[0])
+                if c is None or c.op != 'icmp' or len(ops) != 2:
+                    continue
+                eff = p if t.d['succ'][0] == s else f.INV.get(p, p)
+                a0, a1 = ops
+                if a0[0] == 'c':
+                    a0, a1 = a1, a0; eff = {'slt': 'sgt', 'sgt': 'slt', 'sle': 'sge', 'sge': 'sle'}.get(eff, eff)
+                y = f.v(f.strip_casts(a0)) if a0[0] == 'v' else None
+                if y is None or y.op != 'load' or f.last_field(f.path(y.a[0])) != 'pixman_glyph_cache_t.n_glyphs' or a1[0] != 'c':
+                    continue
+                k = int(a1[1])
+                if (eff == 'sgt' and k >= 0) or (eff == 'sge' and k >= 1):
+                    ok = True
+            where = '%s: tail of the MRU list taken at %s' % (fn, x.loc())
+            if ok:
+                ck.ok(R, where, 'under n_glyphs > c >= 0')
+            else:
+                ck.violation(R, fn, 'MRU tail taken without a live-glyph test', '%s takes the tail of the MRU list for a glyph at %s on a path where the live-glyph count has not just been compared (signed) with a non-negative constant: with an empty list the tail is the list head inside the cache structure, remove_glyph searches the table for it for ever, and everything before it was evicted although the cache was at or below its low-water mark' % (fn, x.loc()), x.loc())
+    if n == 0:
+        raise AnalysisBroken('%s: no use of the MRU tail as a glyph found' % rid)
